@@ -201,6 +201,7 @@ pub fn generate(ctx: &mut Ctx, allow_filters: bool) -> Vec<Value> {
     cases.extend(sweep(ctx));
     cases.extend(matrix());
     cases.extend(unknown_types(ctx));
+    cases.extend(tal_switch());
     cases
 }
 
@@ -376,6 +377,52 @@ fn unknown_types(ctx: &mut Ctx) -> Vec<Value> {
                 run_spec(T0, tree.serve(0), order.clone()),
                 run_spec(T0 + 600, tree.serve(0), order),
             ], &[f], extra));
+        }
+    }
+    cases
+}
+
+/// Histories in which the TAL file for an unchanged URI gets another key
+/// between runs. Run 0 (old TAL) stores the old-key trust anchor certificate
+/// or nothing; in the later runs (new TAL) upstream still serves the old-key
+/// certificate, garbage or nothing, or the run is made without update. No
+/// run under the new TAL may serve anything: the only certificates around
+/// carry the old key.
+fn tal_switch() -> Vec<Value> {
+    let mut cases = Vec::new();
+    let mut tree = sweep_tree();
+    let old = tree.world.tals[0].clone();
+    let mut first = old.clone();
+    first.runs = Some(vec![0]);
+    let mut second = old.clone();
+    second.key = (old.key + 7) % 26;
+    second.runs = Some(vec![1, 2]);
+    tree.world.tals = vec![first, second];
+    let opts = EngineOpts { enable_aspa: true, enable_bgpsec: true, ..Default::default() };
+    let garbage = |uri: &str| TaFile { uri: uri.into(), content: TaContent::Raw { hex: "3003020101".into() } };
+    let uri = old.uris[0].clone();
+    for stored in ["old-key", "none"] {
+        for download in ["old-key", "garbage", "absent", "no-update", "rsync-fails"] {
+            let mut r0 = run_spec(T0, tree.serve(0), Order::Sorted);
+            if stored == "none" { r0.serve.tas = vec![garbage(&uri)] }
+            let mut r1 = run_spec(T0 + 600, tree.serve(0), Order::Sorted);
+            match download {
+                "garbage" => r1.serve.tas = vec![garbage(&uri)],
+                "absent" => r1.serve.tas = vec![],
+                "no-update" => r1.update = Some(false),
+                "rsync-fails" => r1.serve.rsync.push(RsyncCtl {
+                    module: MODULES[0].into(), mode: RsyncMode::Fail { code: 12 }
+                }),
+                _ => { }
+            }
+            let mut r2 = r1.clone();
+            r2.now = T0 + 1200;
+            r2.update = Some(false);
+            let f = Applied {
+                what: format!("tal-key-switch stored={stored} download={download}"),
+                ca: String::new(), only_object: None,
+            };
+            cases.push(case_json("tal-switch", &tree, &opts, vec![r0, r1, r2], &[f], json!(null)));
         }
     }
     cases
